@@ -603,9 +603,15 @@ theorem fileMode_perm_mod (m : Nat) : (fileMode m).drop 1 = (fileMode (m % 4096)
     e 32 (by simp), e 64 (by simp), e 128 (by simp), e 256 (by simp), e 512 (by simp), e 1024 (by simp),
     e 2048 (by simp)]
 
-set_option maxRecDepth 100000 in
-theorem mode_table : ∀ p, p < 512 →
-    (parseUnixMode ((fileMode p).drop 1)).toOption = some p := by decide
+/-- all 4096 permission words (set-uid, set-gid and sticky included), decided by the kernel -/
+theorem mode_table_split : ∀ hi, hi < 8 → ∀ lo, lo < 512 →
+    (parseUnixMode ((fileMode (hi * 512 + lo)).drop 1)).toOption = some (hi * 512 + lo) := by decide +kernel
+
+theorem mode_table (p : Nat) (h : p < 4096) :
+    (parseUnixMode ((fileMode p).drop 1)).toOption = some p := by
+  have := mode_table_split (p / 512) (by omega) (p % 512) (Nat.mod_lt _ (by decide))
+  have e : p / 512 * 512 + p % 512 = p := by omega
+  rwa [e] at this
 
 theorem toOption_some {ε α : Type} {x : Except ε α} {v : α} (h : x.toOption = some v) : x = .ok v := by
   cases x with
